@@ -12,6 +12,13 @@ kind 'T'  a compressed sparse matrix (pattern + position-identifying values) is 
 kind 'F'  a file-level operation on small generated h5ad / HDF5 files (pivot, row shuffle,
           column subset, stacking row selections, layer -> X, element-wise HDF5 copy); the
           oracle is the same operation on the in-memory numpy matrix / the source tree.
+kind 'S'  the in-memory pointer arithmetic of utils/sparse_utils.py (merge_csr, load_csr,
+          load_csc, load_csr_chunk) against numpy slicing / stacking.
+
+An enumerated 'T' spec is compact ({'plan', 'idx', 'skip'}): its variants are a deterministic
+function of the spec (_plan_variants) minus the trigger regions named in 'skip' (the still
+unrepaired defects, see UNREPAIRED); replay / regression specs carry an explicit 'variants' list
+and are never filtered.  C13_NO_EXCLUDE=1 switches every exclusion off.
 """
 import os
 
